@@ -216,8 +216,19 @@ def popT (p : Path) (hasDefault : Bool) (t : Entry) : Entry × Out :=
 
 /-- mirrors tensordict/_td.py:TensorDict.rename_key_ (after the `fix:` commit: a new key that extends
 the old one detaches the value first). `old`/`new` are the unravelled keys. -/
+def renameEmptyErr (old new : Path) (safe : Bool) (t : Entry) : Err :=
+  -- which exception a malformed (empty) key produces: `() in keys` is a TypeError, `get(())` a KeyError,
+  -- `_set_tuple(())` an IndexError (after `get(old)` has been evaluated)
+  if old = [] ∧ new = [] then .type
+  else if old = [] then .key
+  else if safe then .type
+  else match getTuple old t with
+    | .error e => e
+    | .ok none => .key
+    | .ok (some _) => .index
+
 def renameKey (old new : Path) (safe : Bool) (t : Entry) : Entry × Out :=
-  if old = [] ∨ new = [] then (t, .err .key) else
+  if old = [] ∨ new = [] then (t, .err (renameEmptyErr old new safe t)) else
   if old = new then
     -- `old_key not in self.keys(include_nested=isinstance(old_key, tuple))`
     match (if old.length = 1 then containsFlat old t else containsNested old t) with
@@ -355,26 +366,26 @@ def excludeScan (orig : Kids) : List Path → Kids → List (String × List Path
     if (dget k orig).isSome then excludeScan orig rest cur (groupAdd k sub grp)
     else excludeScan orig rest cur grp
 
-/-- `_exclude(*keys)` on the storage of a node (in place and out of place compute the same content;
-with the `fix:` commit a group whose entry is not a nested tensordict is skipped) -/
+/-- second loop of `_exclude`: every group whose entry is (still) a nested tensordict is pruned by `f` (the
+recursive `_exclude` call); with the `fix:` commit a group whose entry is not a nested tensordict is skipped -/
+def excludeGroups (f : List Path → Kids → Except Err Kids) : List (String × List Path) → Kids → Except Err Kids
+  | [], cur => .ok cur
+  | (k, subs) :: r, cur =>
+    match dget k cur with
+    | some (.node sub) =>
+      match f subs sub with
+      | .error e => .error e
+      | .ok sub' => excludeGroups f r (dset k (.node sub') cur)
+    | _ => excludeGroups f r cur
+
+/-- `_exclude(*keys)` on the storage of a node (in place and out of place compute the same content) -/
 def excludeF : Nat → List Path → Kids → Except Err Kids
   | 0, _, kids => .ok kids
   | fuel + 1, keys, kids =>
     if keys = [] then .ok kids else
-    -- when inplace, `key[0] in self._tensordict` is evaluated on the storage being popped from
     match excludeScan kids keys kids [] with
     | .error e => .error e
-    | .ok (cur, grp) =>
-      let rec groups : List (String × List Path) → Kids → Except Err Kids
-        | [], cur => .ok cur
-        | (k, subs) :: r, cur =>
-          match dget k cur with
-          | some (.node sub) =>
-            match excludeF fuel subs sub with
-            | .error e => .error e
-            | .ok sub' => groups r (dset k (.node sub') cur)
-          | _ => groups r cur
-      groups grp cur
+    | .ok (cur, grp) => excludeGroups (excludeF fuel) grp cur
 
 /-- in place, `key[0] in self._tensordict` sees the keys already popped by the same call -/
 def excludeScanInplace : List Path → Kids → List (String × List Path) → Except Err (Kids × List (String × List Path))
@@ -425,8 +436,22 @@ where
     | [] => 0
     | (_, v) :: r => entrySize v + kidsSize r
 
-def updFuel (items : List (Path × Entry)) : Nat :=
-  items.foldl (fun n kv => n + kv.1.length + entrySize kv.2 + 2) 1
+/-- a bound on the depth of the recursion of `updateF` (the fuel is an artefact of the model, not of the code) -/
+def payloadW : Entry → Nat
+  | .leaf .. => 0
+  | .node kids => go kids
+where
+  go : Kids → Nat
+    | [] => 0
+    | (_, v) :: r => 2 + (match v with
+        | .node sub => go sub
+        | .leaf .. => 0) + go r
+
+def updMeasure : List (Path × Entry) → Nat
+  | [] => 0
+  | (p, v) :: r => 1 + p.length + payloadW v + updMeasure r
+
+def updFuel (items : List (Path × Entry)) : Nat := updMeasure items
 
 def updateT (items : List (Path × Entry)) (t : Entry) : Entry × Out :=
   match updateF (updFuel items) items t with
@@ -522,6 +547,11 @@ def leavesOf (t : Entry) : List (Path × Entry) := iterItems true true t []
 
 def joinWith (sep : String) (p : Path) : String := sep.intercalate p
 
+/-- `set(l)` as a list (`len(set(l))` is its length) -/
+def dedup {α} [BEq α] : List α → List α
+  | [] => []
+  | x :: r => if (dedup r).contains x then dedup r else x :: dedup r
+
 /-- left-to-right `d[k] = v` -/
 def dictBuild (l : List (String × Entry)) : Kids := l.foldl (fun d kv => dset kv.1 kv.2 d) []
 
@@ -529,7 +559,7 @@ def dictBuild (l : List (String × Entry)) : Kids := l.foldl (fun d kv => dset k
 def flattenOut (sep : String) (t : Entry) : Except Err Entry :=
   let lv := leavesOf t
   let flat := lv.map (fun kv => joinWith sep kv.1)
-  if flat.eraseDups.length < flat.length then .error .key
+  if (dedup flat).length < flat.length then .error .key
   else .ok (.node (dictBuild (flat.zip (lv.map (·.2)))))
 
 /-- mirrors base.py:_flatten_keys_inplace (after the `fix:` commit): pop every leaf, exclude what is
@@ -537,7 +567,7 @@ left, write the flat names -/
 def flattenIn (sep : String) (t : Entry) : Entry × Out :=
   let leaves := keysView ⟨true, true, false, true⟩ t
   let flat := leaves.map (joinWith sep)
-  if flat.eraseDups.length < leaves.eraseDups.length then (t, .err .key) else
+  if (dedup flat).length < (dedup leaves).length then (t, .err .key) else
   let rec pops : List Path → Entry → List Entry → Entry × Except Err (List Entry)
     | [], t, acc => (t, .ok acc.reverse)
     | p :: r, t, acc =>
